@@ -36,6 +36,8 @@ type StopCase struct {
 	SlowN    int  // HandlerSlow: yields per call
 	// PrevCancel: the preceding attempt (if PrevOK) was ended by caller cancellation instead of the master's EOF
 	PrevCancel bool `json:",omitempty"`
+	// PrevFail: the preceding attempt (if PrevOK) was ended by a handler failure (reported correctly, one hopes)
+	PrevFail bool `json:",omitempty"`
 	// schedule perturbation at the library's log calls (through the exported SetLogger)
 	PerturbWho    int `json:",omitempty"` // 0 none, 1 reader goroutine, 2 Stream goroutine, 3 both
 	PerturbMicros int `json:",omitempty"`
@@ -51,7 +53,38 @@ type StopCase struct {
 	// returned, the harness waits until it has before it calls Error(): an expired context of the caller does not
 	// change why the stream ended
 	LateDeadlineMs int `json:",omitempty"`
+	// CustomCtx: the caller's context is of a type of the caller's own (its own Done channel), not one of the
+	// standard library's: deriving from it costs the standard library a watcher goroutine, which has to go
+	// away with the derived context
+	CustomCtx bool `json:",omitempty"`
+	// Chop != 0: the master's bytes arrive in pieces (see fakemaster.ConnPlan.Chop)
+	Chop uint32 `json:",omitempty"`
 }
+
+// ownCtx is a context type of the caller's own: it has its own Done channel (closed when the wrapped
+// context ends) and hides the wrapped context's identity from context.WithCancel.
+type ownCtx struct {
+	inner context.Context
+	done  chan struct{}
+}
+
+func newOwnCtx(inner context.Context) *ownCtx {
+	c := &ownCtx{inner: inner, done: make(chan struct{})}
+	go func() { <-inner.Done(); close(c.done) }()
+	return c
+}
+
+func (c *ownCtx) Deadline() (time.Time, bool) { return c.inner.Deadline() }
+func (c *ownCtx) Done() <-chan struct{}       { return c.done }
+func (c *ownCtx) Err() error {
+	select {
+	case <-c.done:
+		return c.inner.Err()
+	default:
+		return nil
+	}
+}
+func (c *ownCtx) Value(key interface{}) interface{} { return nil }
 
 // StopObs is everything observed.
 type StopObs struct {
@@ -171,6 +204,8 @@ func runStop(c *StopCase) *StopObs {
 				return nil
 			}})
 			pcancel()
+		} else if c.PrevFail {
+			st0 = ss.run(attempt{l: l, handler: func(tx *gobinlog.Transaction, st *attemptState) error { return errInjected }})
 		} else {
 			st0 = ss.run(attempt{l: l})
 		}
@@ -199,7 +234,7 @@ func runStop(c *StopCase) *StopObs {
 	}
 	var cancelled, quiet int32
 	doCancel := func() { atomic.StoreInt32(&cancelled, 1); atomic.StoreInt32(&quiet, 1); cancel() }
-	plan := &fakemaster.ConnPlan{}
+	plan := &fakemaster.ConnPlan{Chop: c.Chop}
 	var stRef atomic.Value
 	handlerBlocked := int32(0)
 
@@ -270,6 +305,9 @@ func runStop(c *StopCase) *StopObs {
 	}
 	defer cleanup()
 	at.ctx = ctx
+	if c.CustomCtx {
+		at.ctx = newOwnCtx(ctx)
+	}
 	at.plan = plan
 	if at.plan.Gate == nil {
 		at.plan.Gate = func(i int, s *fakemaster.Step) bool {
@@ -392,7 +430,7 @@ func runStop(c *StopCase) *StopObs {
 			deadline := time.Now().Add(time.Second)
 			for time.Now().Before(deadline) {
 				if st, ok := stRef.Load().(*attemptState); ok {
-					if g, ok := sched.Find(sched.Probe(), int(atomic.LoadInt64(&st.streamGID))); ok && g.State == "IO wait" {
+					if g, ok := sched.Find(sched.Probe(), int(st.streamGID.Load())); ok && g.State == "IO wait" {
 						break
 					}
 				}
@@ -408,7 +446,7 @@ func runStop(c *StopCase) *StopObs {
 	at.fallback = stopBound
 	at.fallbackCancel = cancel
 	at.onStall = func(st *attemptState) {
-		state, proven := blockedProof(int(atomic.LoadInt64(&st.streamGID)), st.baseline)
+		state, proven := blockedProof(int(st.streamGID.Load()), st.baseline)
 		if proven {
 			obs.Stalled = "Stream has not returned and is parked: " + state
 		} else {
@@ -419,11 +457,11 @@ func runStop(c *StopCase) *StopObs {
 		// Error() must return, three times in a row
 		for i := 0; i < 3 && obs.ErrorBlocked == ""; i++ {
 			done := make(chan error, 1)
-			var gid int64
+			var gid atomic.Int64
 			var wg sync.WaitGroup
 			wg.Add(1)
 			go func() {
-				atomic.StoreInt64(&gid, int64(sched.Self()))
+				gid.Store(int64(sched.Self()))
 				wg.Done()
 				done <- ss.s.Error()
 			}()
@@ -432,7 +470,7 @@ func runStop(c *StopCase) *StopObs {
 			case e := <-done:
 				obs.ErrorResults = append(obs.ErrorResults, e)
 			case <-time.After(stopBound):
-				state, proven := blockedProof(int(atomic.LoadInt64(&gid)), st.baseline)
+				state, proven := blockedProof(int(gid.Load()), st.baseline)
 				if proven {
 					obs.ErrorBlocked = fmt.Sprintf("Error() call %d does not return: %s", i+1, state)
 				} else if obs.Inconclusive == "" {
@@ -501,7 +539,7 @@ func runStop(c *StopCase) *StopObs {
 	}
 
 	// no library goroutine may remain
-	left := sched.WaitNoLib(st.baseline, stopBound)
+	left := sched.WaitNoLib(st.baseline, stopBound, int(st.streamGID.Load()))
 	if len(left) > 0 {
 		proven := true
 		var desc []string
